@@ -436,7 +436,7 @@ def _parts(thorough, seed):
         ("cam_zero_position", ([100], D(none, *[["p", i] for i in range(4)], *[["e", i] for i in range(4)]), [0], None, False, [], seed, None, "zero"),
          6 if thorough else 5, 2),
         ("cam_stop_go", ([100, 250, 1000], D(none, ["s", 2], ["s", 0], ["s", 3], ["p", 1]), [0, 50], None, True, [], seed, None, "zero"),
-         7 if thorough else 5, 2),
+         6 if thorough else 5, 2),
         ("cam_missing", ([100, 1000], D(none, *[["miss", f] for f in MISSABLE], ["s", 2], ["h", 3]), [0], None, True, [], seed),
          6 if thorough else 4, 2),
         ("cam_fast_lf", ([100], D(["s", 2], ["s", 0], none), [0], None, False, [], seed), 14 if thorough else 10, 2),
